@@ -44,6 +44,23 @@ def patch_porepy():
         if d.get("sps") is _sps:
             mod.sps = spsproxy
             _patched.append((mod, "sps", _sps))
+        if name in _FLOAT_CAST_MODULES and "float" not in d:
+            # float(x) casts of numpy scalars: identity on symbolic scalars (a module-global shadowing the builtin)
+            mod.float = _float_shim
+            _patched.append((mod, "float", None))
+
+
+_FLOAT_CAST_MODULES = {"porepy.geometry.geometry_property_checks"}
+
+
+def _float_shim(x=0.0):
+    from .sym import SReal
+
+    if isinstance(x, SReal):
+        return x
+    if isinstance(x, _np.ndarray) and x.dtype == object and x.size == 1 and isinstance(x.ravel()[0], SReal):
+        return x.ravel()[0]
+    return float(x)
 
 
 def _patch_adarray():
